@@ -140,7 +140,7 @@ def gen_spec(rng, name, klass="free", size=None):
                 if usage[j] == "moved" and m == "val":
                     moved_owner.setdefault(j, ("h", -1))
     mws = []
-    for m in range(rng.choice([0, 0, 1, 2, 3])):
+    for m in range(rng.choice([0, 1, 2, 3, 4, 5])):
         kind = rng.choice(["wrap", "pre", "post"])
         mws.append({"i": m, "kind": kind, "ins": comp_inputs("m", m, True), "fallible": rng.random() < 0.1})
     observers = []
@@ -157,12 +157,35 @@ def gen_spec(rng, name, klass="free", size=None):
     items = [[mw["kind"], mw["i"]] for mw in mws] + [["route", h["i"]] for h in handlers]
     if not inclass or rng.random() < 0.5:
         rng.shuffle(items)
+    # each unit = the registration plus, if fallible, its error handler (kept adjacent)
+    units = []
     for it in items:
-        bp.append(it)
+        u = [it]
         if it[0] == "route" and handlers[it[1]]["fallible"]:
-            bp.append(["eh", "h", it[1]])
+            u.append(["eh", "h", it[1]])
         if it[0] in ("wrap", "pre", "post") and mws[it[1]]["fallible"]:
-            bp.append(["eh", "m", it[1]])
+            u.append(["eh", "m", it[1]])
+        units.append(u)
+    counter = [0]
+
+    def nestify(us, depth, prefix):
+        out, i = [], 0
+        while i < len(us):
+            if depth < 3 and rng.random() < 0.3:
+                k = rng.randrange(1, len(us) - i + 1)
+                counter[0] += 1
+                pfx = "/n%d" % counter[0]
+                out.append(["nest", {"prefix": pfx, "ops": nestify(us[i:i + k], depth + 1, prefix + pfx)}])
+                i += k
+            else:
+                for op in us[i]:
+                    out.append(op)
+                    if op[0] == "route":
+                        handlers[op[1]]["full_path"] = prefix + handlers[op[1]]["path"]
+                i += 1
+        return out
+
+    bp += nestify(units, 0, "")
     return {"name": name, "klass": klass, "types": types, "ctors": ctors, "handlers": handlers, "mws": mws,
             "observers": observers, "bp": bp, "usage": {str(k): v for k, v in usage.items()} if inclass else {}}
 
@@ -195,7 +218,7 @@ def render(spec):
     U = M.upper()
     o = []
     w = o.append
-    w("#![allow(unused_variables, unused_mut, clippy::all)]")
+    w("#![allow(unused_variables, unused_mut, unused_imports, clippy::all)]")
     w("use crate::rt::{fresh, log, should};")
     w("use pavex::middleware::{Next, Processing};")
     w("use pavex::{Blueprint, Response};")
@@ -237,9 +260,20 @@ def render(spec):
         w("#[pavex::%s(%s)]" % (life, ", ".join(args)))
         params = ", ".join(_param(spec, k, j, m) for k, (j, m) in enumerate(c["ins"]))
         out = _ty(spec, i)
+        gen = ""
         if t["cap"] is not None:
             capidx = [k for k, (j, m) in enumerate(c["ins"]) if j == t["cap"] and m == "ref"][0]
             build = "T%d { id, of: a%d }" % (i, capidx)
+            # several reference inputs: the output lifetime must be named
+            gen = "<'a>"
+            out = "T%d<'a>" % i
+            ps = []
+            for k, (j, m) in enumerate(c["ins"]):
+                if k == capidx:
+                    ps.append("a%d: &'a %s" % (k, _ty(spec, j, "'a") if spec["types"][j]["cap"] is not None else "T%d" % j))
+                else:
+                    ps.append(_param(spec, k, j, m))
+            params = ", ".join(ps)
         else:
             build = "T%d { id }" % i
         ret = "Result<%s, %s>" % (out, err_ty("c", i)) if c["fallible"] else out
@@ -248,7 +282,7 @@ def render(spec):
             body = "if should(\"%s.c%d\") { log(format!(\"fail %s.c%d\")); return Err(%s); } " % (M, i, M, i, err_ty("c", i)) + body + " Ok(%s)" % build
         else:
             body += " " + build
-        w("pub %sfn c%d(%s) -> %s { %s }" % ("async " if c["async"] else "", i, params, ret, body))
+        w("pub %sfn c%d%s(%s) -> %s { %s }" % ("async " if c["async"] else "", i, gen, params, ret, body))
     w("")
     for h in spec["handlers"]:
         i = h["i"]
@@ -321,16 +355,16 @@ def render(spec):
                 w("%s%s" % (ind, op[1].replace("{bp}", var)))
             elif k == "nest":
                 nb = op[1]
+                nv = "nb%d" % (depth + 1)
                 w("%s{" % ind)
-                w("%s    let mut nb = Blueprint::new();" % ind)
-                emit_ops(nb["ops"], "nb", depth + 1)
-                call = var
+                w("%s    let mut %s = Blueprint::new();" % (ind, nv))
+                emit_ops(nb["ops"], nv, depth + 1)
                 if nb.get("prefix"):
-                    w("%s    %s.prefix(\"%s\").nest(nb);" % (ind, var, nb["prefix"]))
+                    w("%s    %s.prefix(\"%s\").nest(%s);" % (ind, var, nb["prefix"], nv))
                 elif nb.get("domain"):
-                    w("%s    %s.domain(\"%s\").nest(nb);" % (ind, var, nb["domain"]))
+                    w("%s    %s.domain(\"%s\").nest(%s);" % (ind, var, nb["domain"], nv))
                 else:
-                    w("%s    %s.nest(nb);" % (ind, var))
+                    w("%s    %s.nest(%s);" % (ind, var, nv))
                 w("%s}" % ind)
 
     for item in spec.get("extra_items", []):
